@@ -745,6 +745,53 @@ func RunNormalize(c *core.Ctx) {
 				}
 			}
 		}
+		// a copy is a document of its own: Set on the copy (or a write into the map ToMap/AsMap returns) changes only the
+		// copy, and Set on the original changes only the original - also through sub-objects that were empty when the copy was taken
+		{
+			doc.Set("emp", map[string]interface{}{})
+			model.SetPath(ref, "emp", map[string]any{})
+			doc.Set("n.emp", map[string]interface{}{})
+			model.SetPath(ref, "n.emp", map[string]any{})
+			cp := doc.Copy()
+			refCp := model.DeepCopy(ref).(map[string]any)
+			tm, am := doc.ToMap(), doc.AsMap()
+			for _, p := range []string{"emp.tag", "n.emp.x.y", gen.Pick(r, paths)} {
+				v := r.Nested(1)
+				cp.Set(p, model.DeepCopy(v))
+				model.SetPath(refCp, p, model.DeepCopy(v))
+			}
+			for _, m := range []map[string]interface{}{tm, am} {
+				if sub, ok := m["emp"].(map[string]interface{}); ok {
+					sub["via-map"] = int64(1)
+				}
+				if n, ok := m["n"].(map[string]interface{}); ok {
+					n["via-map"] = int64(2)
+					if sub, ok := n["emp"].(map[string]interface{}); ok {
+						sub["via-map"] = int64(3)
+					}
+				}
+				m["via-map"] = int64(4)
+			}
+			c.Eval(1)
+			if d := model.StrictDiff(ref, model.FromDoc(doc)); d != "" {
+				c.Violate("path:copy-aliases-original", "Set on doc.Copy() / a write into the map returned by ToMap or AsMap changed the original document at %s\n  got  %s\n  want %s", d, model.Render(model.FromDoc(doc)), model.Render(ref))
+				return
+			}
+			for _, p := range []string{"emp.orig", "n.emp.orig", gen.Pick(r, paths)} {
+				v := r.Nested(1)
+				doc.Set(p, model.DeepCopy(v))
+				model.SetPath(ref, p, model.DeepCopy(v))
+			}
+			if d := model.StrictDiff(refCp, model.FromDoc(cp)); d != "" {
+				c.Violate("path:copy-aliases-original", "Set on the original changed its earlier Copy() at %s\n  got  %s\n  want %s", d, model.Render(model.FromDoc(cp)), model.Render(refCp))
+				return
+			}
+			if d := model.StrictDiff(ref, model.FromDoc(doc)); d != "" {
+				c.Violate("path:other-paths-changed", "after Set on a copied document it differs from the expected one at %s\n  got  %s\n  want %s", d, model.Render(model.FromDoc(doc)), model.Render(ref))
+				return
+			}
+			c.Cell("paths|copy-independent")
+		}
 		for _, p := range append(paths, "zz", "a.zz", "a.b.c.d") {
 			wv, wh := model.Lookup(ref, p)
 			if doc.Has(p) != wh {
